@@ -185,6 +185,19 @@ def run(ctx):
     hres = K.build_results(tc, hostile, K.cache_dir(tc, "hostile", content_tag(hostile)))
     for p, res in zip(hostile, hres):
         judge(p, res, key_for)
+    # (2b) committed corpus of minimised past failures: corpus/C02/*.dora
+    cdir = os.path.join(C.VERIF, "corpus", "C02")
+    corpus = []
+    if os.path.isdir(cdir):
+        for f in sorted(os.listdir(cdir)):
+            if f.endswith(".dora"):
+                body = open(os.path.join(cdir, f), encoding="utf-8").read()
+                rp = G.RawProgram("corpus_" + re.sub(r"[^A-Za-z0-9]+", "_", f[:-5]), "", "corpus", f[:-5])
+                rp.dora = body
+                corpus.append(rp)
+    cres = K.build_results(tc, corpus, K.cache_dir(tc, "corpus", content_tag(corpus))) if corpus else []
+    for p, res in zip(corpus, cres):
+        judge(p, res, key_for)
     # (3) repository programs with deterministic expectations
     rts, skipped, rt_total = rt_corpus(ctx.tier, ctx.seed)
     rres = K.build_results(tc, rts, K.cache_dir(tc, "rt", content_tag(rts)))
